@@ -31,6 +31,8 @@ func init() {
 		}
 		// stripe tables with empty slots between rings (two doublings, then attaches at environment-chosen slots)
 		add(c17Params{MaxLen: 4, Adders: []int{2, 1}, Prefill: 1, Doubles: 2, Drains: 1, RandOpts: 4}, "small", 1, 4, 8, 60, "success", "ring-behind-empty-stripe")
+		// a stripe attach racing the table expansion of another (contended) Add
+		add(c17Params{MaxLen: 4, Adders: []int{1, 1}, Prefill: 1, Doubles: 1, Doublers: 1, Drains: 1, RandOpts: 4}, "small", 2, 2, 8, 60, "success")
 		if !thorough {
 			// first-use initialisation race + adds racing one drain
 			add(c17Params{MaxLen: 2, Adders: []int{2, 2}, Drains: 1}, "small", 2, 0, 8, 60, "success")
